@@ -440,9 +440,10 @@ namespace occa {
       ++it;
 
       // If we're merging two json objects, recursively merge them
-      if (val.isObject() && has(key)) {
-        // Reuse prefetch
-        json &oldVal = value_.object[key];
+      // (look the member up by name: has() would split the key at '/')
+      jsonObject::iterator oldIt = value_.object.find(key);
+      if (val.isObject() && (oldIt != value_.object.end())) {
+        json &oldVal = oldIt->second;
         if (oldVal.isObject()) {
           oldVal += val;
         } else {
